@@ -243,8 +243,7 @@ def o23(ctx):
         loop = p
         while loop is not None and not isinstance(loop, ast.For):
             loop = m.parents.get(loop)
-        if isinstance(p, ast.Assign) and isinstance(p.targets[0], ast.Subscript) and loop is not None \
-                and "frames" in ast.unparse(loop.iter) and ast.unparse(p.targets[0].value) == "frames":
+        if stored_back_over_list(fn, p, loop):
             ok_round = True
     if not ok_round:
         ctx.finding(WR, "rounding of the tables", "every table must be rounded to float_precision decimals and stored back "
@@ -475,8 +474,7 @@ def o24(ctx):
     while loop is not None and not isinstance(loop, ast.For):
         loop = m.parents.get(loop)
     ctx.count(1)
-    if not (isinstance(par, ast.Assign) and isinstance(par.targets[0], ast.Subscript) and loop is not None
-            and "frames" in ast.unparse(loop.iter) and ast.unparse(par.targets[0].value) == "frames"):
+    if not stored_back_over_list(fn, par, loop):
         ctx.finding(RD, ap, "the numeric conversion must be applied to every block and stored back (frames[i] = ...)", ap, m)
     # parse_rows: the table carries the parsed labels as columns even when it has no rows
     q = "starfileio.Token.parse_rows"
